@@ -301,7 +301,8 @@ func (w *world) runScenario(sc *Scenario) int {
 	}
 	D := int64(depthOf(sc))
 	assumptionOK := true
-	var ghost *ethfake.Block // the head at the last Sync that changed the stored state
+	var ghost *ethfake.Block // the head at the last Sync that changed the stored state or reported success
+	syncedNum := int64(-1)
 	firstViolation := -1
 	sawReorg, sawFault, stored := false, false, false
 	for si, st := range sc.Steps {
@@ -316,6 +317,9 @@ func (w *world) runScenario(sc *Scenario) int {
 		// the property's assumption about this head, relative to what is synced
 		if pre.Present && ghost != nil {
 			k := pre.Number
+			if syncedNum > k {
+				k = syncedNum // "the synced block": the last head for which a Sync without failure returned nil
+			}
 			// the same rule whether the position's hash is known or (after a rollback whose resync has
 			// not completed) empty: forks at most the assumed depth below the recorded position
 			agreeUpto := k - D
@@ -367,6 +371,14 @@ func (w *world) runScenario(sc *Scenario) int {
 		changed := post.Present != pre.Present || post.Number != pre.Number || !bytes.Equal(post.Hash, pre.Hash) || len(postRows) != len(preRows)
 		if changed {
 			ghost = hb
+			syncedNum = post.Number
+		}
+		if out.Err == nil && post.Present && int64(hb.Number) >= post.Number && hb.Number >= effStart(sc) &&
+			(!pre.Present || int64(hb.Number) > pre.Number) && int64(hb.Number) > syncedNum { // a head beyond what was synced: there was something to do
+			// the syncer reported success for this head: whatever it recorded, the observer takes the head
+			// as synced, and the next fork is judged relative to it
+			ghost = hb
+			syncedNum = int64(hb.Number)
 		}
 		// ---- correspondence case
 		id := run.NextID()
@@ -1066,6 +1078,44 @@ func emptyHashScenarios() []*Scenario {
 	return out
 }
 
+// events, then quiet heads observed one by one, then a fork below the last event whose first head is
+// the last observed head + 1 (seed C15j)
+func quietHeadsScenarios() []*Scenario {
+	var out []*Scenario
+	for _, s := range []string{"registry", "sequencer", "multi"} {
+		for quiet := 2; quiet <= 4; quiet++ {
+			sc := &Scenario{Kind: "sync", Syncer: s, Start: 0, Note: fmt.Sprintf("events, %d quiet heads one by one, then a fork below the last event, first head = last observed head + 1", quiet)}
+			if s == "multi" {
+				sc.Depth, sc.Range = 10, 10_000
+				sc.Defs, sc.DefValid = stdDefs()
+			}
+			ev := func(p uint8, idx uint64) []syncrig.Item {
+				return []syncrig.Item{{Tx: 0, Ev: &syncrig.Ev{Eon: 1, P: p, S: 1, TS: 5, Def: 0, Exp: 300, Idx: idx, Gas: "21000"}}}
+			}
+			sc.Blocks = []syncrig.BlockSpec{{Parent: 0, Count: 1}, {Parent: 1, Items: ev(1, 0)}, {Parent: 2, Count: 1}, {Parent: 3, Items: ev(2, 1)}, {Parent: 4, Count: 1 + quiet}} // 1..5+quiet, events at 2 and 4
+			last := 5 + quiet
+			// fork after block 3: 4', 5' (event), 6'.., an event two blocks before the new head, new head = last + 1
+			sc.Blocks = append(sc.Blocks, syncrig.BlockSpec{Parent: 3, Salt: 1, Count: 1}, syncrig.BlockSpec{Parent: last + 1, Salt: 1, Items: ev(3, 1)})
+			n := last + 2 // id of 5'
+			for num := 6; num <= last+1; num++ {
+				var items []syncrig.Item
+				if num == last-1 {
+					items = ev(4, 2)
+				}
+				sc.Blocks = append(sc.Blocks, syncrig.BlockSpec{Parent: n, Salt: 1, Items: items})
+				n++
+			}
+			sc.Steps = []Step{{Head: 5}}
+			for h := 6; h <= last; h++ {
+				sc.Steps = append(sc.Steps, Step{Head: h})
+			}
+			sc.Steps = append(sc.Steps, Step{Head: n}, Step{Head: n})
+			out = append(out, sc)
+		}
+	}
+	return out
+}
+
 func forcedScenarios() []*Scenario {
 	var out []*Scenario
 	// admission boundaries of the sequencer: gas limits 2^63-1 (admissible), 2^63, 2^64-1, 2^64+21000, 2^200
@@ -1184,6 +1234,9 @@ func main() {
 		exec(sc)
 	}
 	for _, sc := range emptyHashScenarios() {
+		exec(sc)
+	}
+	for _, sc := range quietHeadsScenarios() {
 		exec(sc)
 	}
 	for _, sc := range sweepScenarios(run.Thorough) {
